@@ -157,6 +157,9 @@ def _gram_cd_epoch(scaled_gram, w, grad, penalty, greedy_cd):
 
         # update w_j
         old_w_j = w[j]
+        if scaled_gram[j, j] == 0.:  # X[:, j] == 0: w_j only enters the penalty
+            w[j] = penalty.prox_1d(old_w_j, 1000., j)
+            continue
         step = 1 / scaled_gram[j, j]  # 1 / lipschitz_j
         w[j] = penalty.prox_1d(old_w_j - step * grad[j], step, j)
 
